@@ -2,10 +2,14 @@
 C14 — Served FINDNODE and PING answers are correct and fit a datagram.
 
 Statements about `sendNodesResponse` / `handleRequest` of `Model/Service.lean` and the RLP length
-function `nodesRespLen` stated there.  WORK IN PROGRESS: statements marked `sorry` await proofs.
+function `nodesRespLen` stated there.  Helper lemmas (the model's sort + dedup, the closed form of
+`nodesToSend`, the packet count, value predicates preserved by pending application) live in
+`Proofs/ServiceServe.lean`; exactness of `nodes_by_distances` is C08.
 -/
 import Discv5Model.Model.Service
 import Discv5Model.Model.KBucketSpec
+import Discv5Model.Proofs.ServiceServe
+import Discv5Model.Props.C08
 
 namespace Discv5.Props.C14
 open Discv5.KB Discv5.Svc
@@ -21,19 +25,6 @@ distances with the configured maximum, minus the requester. -/
 def tablePart (s : Svc) (requester : Nat) (ds : List Nat) : List Rec :=
   ((s.table.nodesByDistances s.cfg.kb s.now ((Svc.dedupAdj (Svc.sortNat ds)).filter (· != 0))
       s.cfg.maxNodesResponse).2.filter (fun n => n.key != requester)).map (·.value)
-
-/-- **served_records.**  The records of all packets together are: the node's own record iff
-distance 0 was requested, followed by its table entries at the requested distances
-(`nodes_by_distances`, whose exactness is C08) without the requester's entry. -/
-theorem served_records (s : Svc) (requester : Nat) (addr : Addr) (rid : Bytes) (ds : List Nat) :
-    (packetsOf (s.sendNodesResponse requester addr rid ds).2).flatten =
-      (if ds.contains 0 then [s.localRec] else []) ++ tablePart s requester ds := by
-  sorry
-
-/-- At most the configured maximum of table entries, plus the own record. -/
-theorem served_count (s : Svc) (requester : Nat) (ds : List Nat) (hmax : 1 ≤ s.cfg.maxNodesResponse) :
-    (s.nodesToSend requester ds).2.length ≤ s.cfg.maxNodesResponse + 1 := by
-  sorry
 
 /-- The requester's own entry is never returned: every table record of the answer comes from an
 entry filed under a key other than the requester's id. -/
@@ -139,6 +130,82 @@ theorem answered (s : Svc) (requester : Nat) (addr : Addr) (rid : Bytes) (ds : L
   simp only [List.length_map]
   exact (nodesPackets_total _).2
 
+theorem packetsOf_map (peer : Nat) (addr : Addr) (rid : Bytes) (total : Nat) (ps : List (List Rec)) :
+    packetsOf (ps.map fun p => Out.response peer addr rid (.nodes total p)) = ps := by
+  induction ps with
+  | nil => rfl
+  | cons p ps ih =>
+    unfold packetsOf at ih ⊢
+    rw [List.map_cons, List.filterMap_cons]
+    simp only
+    rw [ih]
+
+theorem nodesPackets_flatten (recs : List Rec) : (Svc.nodesPackets recs).1.flatten = recs := by
+  unfold Svc.nodesPackets
+  by_cases h : recs.isEmpty
+  · rw [if_pos h]
+    have : recs = [] := by simpa using h
+    subst this
+    rfl
+  · rw [if_neg h]
+    exact split_flatten recs
+
+/-- **served_records.**  The records of all packets together are: the node's own record iff
+distance 0 was requested, followed by its table entries at the requested distances
+(`nodes_by_distances`, whose exactness is C08) without the requester's entry. -/
+theorem served_records (s : Svc) (requester : Nat) (addr : Addr) (rid : Bytes) (ds : List Nat) :
+    (packetsOf (s.sendNodesResponse requester addr rid ds).2).flatten =
+      (if ds.contains 0 then [s.localRec] else []) ++ tablePart s requester ds := by
+  unfold Svc.sendNodesResponse
+  simp only
+  rw [packetsOf_map, nodesPackets_flatten, Svc.nodesToSend_snd]
+  rfl
+
+/-- At most the configured maximum of table entries, plus the own record. -/
+theorem served_count (s : Svc) (requester : Nat) (ds : List Nat) (hmax : 1 ≤ s.cfg.maxNodesResponse) :
+    (s.nodesToSend requester ds).2.length ≤ s.cfg.maxNodesResponse + 1 := by
+  rw [Svc.nodesToSend_snd]
+  have h1 := nodesByDistances_length_le s.cfg.kb s.now s.table
+    ((Svc.dedupAdj (Svc.sortNat ds)).filter (· != 0)) s.cfg.maxNodesResponse hmax
+  have h2 := List.length_filter_le (fun n : Node Rec => n.key != requester)
+    (s.table.nodesByDistances s.cfg.kb s.now ((Svc.dedupAdj (Svc.sortNat ds)).filter (· != 0))
+      s.cfg.maxNodesResponse).2
+  rw [List.length_append, List.length_map]
+  by_cases h0 : ds.contains 0 = true
+  · rw [if_pos h0]; simp only [List.length_cons, List.length_nil]; omega
+  · rw [if_neg h0]; simp only [List.length_nil]; omega
+
+/-- The distance list handed to `nodes_by_distances` (sorted, de-duplicated, 0 removed) is strictly
+increasing — so the `Nodup` hypothesis of C08 `nodesByDistances_exact` holds — and its members are
+exactly the non-zero requested distances. -/
+theorem served_distances (ds : List Nat) :
+    ((Svc.dedupAdj (Svc.sortNat ds)).filter (· != 0)).Pairwise (· < ·) ∧
+    ∀ d, d ∈ (Svc.dedupAdj (Svc.sortNat ds)).filter (· != 0) ↔ d ∈ ds ∧ d ≠ 0 := by
+  obtain ⟨h1, h2⟩ := Svc.normDistances ds
+  refine ⟨h1.filter _, fun d => ?_⟩
+  rw [List.mem_filter, h2]
+  simp
+
+/-- **served_records** combined with C08: on a table satisfying the routing-table invariant, the
+table part of the answer is taken from `want.take max_nodes_response`, where `want` is the
+concatenation (by increasing distance) of the buckets at the requested distances in 1..256 (after
+the lazily applied pending nodes); every such node is filed at a requested distance, no id twice. -/
+theorem served_table_exact (s : Svc) (ds : List Nat) (h : TInv s.cfg.kb s.table)
+    (hmax : 1 ≤ s.cfg.maxNodesResponse) :
+    let D := (Svc.dedupAdj (Svc.sortNat ds)).filter (· != 0)
+    let r := s.table.nodesByDistances s.cfg.kb s.now D s.cfg.maxNodesResponse
+    let want := (D.filter (fun d => 1 ≤ d ∧ d ≤ 256)).flatMap (fun d => (r.1.bucket (d - 1)).nodes)
+    (∀ n ∈ r.2, ∃ d ∈ ds, 1 ≤ d ∧ d ≤ 256 ∧ bucketIndex s.table.localKey n.key = some (d - 1)) ∧
+    r.2 = want.take s.cfg.maxNodesResponse ∧ (r.2.map (·.key)).Nodup := by
+  intro D r want
+  obtain ⟨hp, hm⟩ := served_distances ds
+  have hnd : D.Nodup := hp.imp (fun h => Nat.ne_of_lt h)
+  obtain ⟨h1, h2, h3⟩ := nodesByDistances_exact s.cfg.kb s.now s.table D s.cfg.maxNodesResponse h hnd hmax
+  refine ⟨?_, h2, h3⟩
+  intro n hn
+  obtain ⟨d, hd, hd1, hd2, hd3⟩ := h1 n hn
+  exact ⟨d, ((hm d).1 hd).1, hd1, hd2, hd3⟩
+
 theorem beLen_le_two (n : Nat) (h : n < 65536) : beLen n ≤ 2 := by
   unfold beLen
   by_cases hz : n = 0
@@ -182,17 +249,110 @@ theorem datagramLen_eq (n : Nat) : datagramLen n = 16 + 23 + 32 + n + 16 := by
   unfold datagramLen Consts.IV_LENGTH Consts.STATIC_HEADER_LENGTH
   omega
 
-/-- **fits_datagram** (end to end).  With every record (stored ones and the own one) at most 300
-bytes, a request id of at most 8 bytes and a configured maximum of at most 125 records, every
-packet answering a FINDNODE fits a datagram. -/
+/-- The packets of an answer are `nodesPackets` of the collected records, `total` their number. -/
+theorem mem_sendNodesResponse {s : Svc} {requester : Nat} {addr : Addr} {rid : Bytes} {ds : List Nat}
+    {total : Nat} {recs : List Rec}
+    (h : Out.response requester addr rid (.nodes total recs) ∈
+      (s.sendNodesResponse requester addr rid ds).2) :
+    recs ∈ (Svc.nodesPackets (s.nodesToSend requester ds).2).1 ∧
+    total = (Svc.nodesPackets (s.nodesToSend requester ds).2).1.length := by
+  unfold Svc.sendNodesResponse at h
+  simp only [List.mem_map] at h
+  obtain ⟨p, hp, he⟩ := h
+  injection he with _ _ _ hb
+  injection hb with ht hr
+  subst hr
+  exact ⟨hp, by rw [← ht, (nodesPackets_total _).1]⟩
+
+/-- Every record `nodesToSend` collects is the own record or a stored / pending record of the table. -/
+theorem nodesToSend_sizes (s : Svc) (requester : Nat) (ds : List Nat) (hmax : 1 ≤ s.cfg.maxNodesResponse)
+    (P : Rec → Prop) (hown : P s.localRec) (htab : TVals P s.table) :
+    ∀ r ∈ (s.nodesToSend requester ds).2, P r := by
+  intro r hr
+  rw [Svc.nodesToSend_snd, List.mem_append] at hr
+  rcases hr with hr | hr
+  · by_cases h0 : ds.contains 0 = true
+    · rw [if_pos h0, List.mem_singleton] at hr; rw [hr]; exact hown
+    · rw [if_neg h0] at hr; cases hr
+  · rw [List.mem_map] at hr
+    obtain ⟨n, hn, rfl⟩ := hr
+    exact nodesByDistances_vals s.cfg.kb s.now s.table _ s.cfg.maxNodesResponse hmax htab n
+      (List.mem_filter.1 hn).1
+
+theorem nodesPackets_sound (recs : List Rec) (hsz : ∀ r ∈ recs, r.size < 1280 - 104) :
+    ∀ p ∈ (Svc.nodesPackets recs).1, (p.map (·.size)).sum < 1280 - 104 := by
+  unfold Svc.nodesPackets
+  by_cases h : recs.isEmpty
+  · rw [if_pos h]
+    intro p hp
+    rw [List.mem_singleton] at hp
+    subst hp
+    decide
+  · rw [if_neg h]
+    exact split_sound recs hsz
+
+/-
+ORIGINAL STATEMENT (false as formulated; kept for reference):
+
 theorem served_fits_datagram (s : Svc) (requester : Nat) (addr : Addr) (rid : Bytes) (ds : List Nat)
     (hrid : rid.length ≤ 8) (hmax : 1 ≤ s.cfg.maxNodesResponse ∧ s.cfg.maxNodesResponse ≤ 125)
     (hown : s.localRec.size ≤ 300)
     (htab : ∀ b ∈ s.table.buckets, ∀ n ∈ b.nodes, n.value.size ≤ 300) :
     ∀ total recs, Out.response requester addr rid (.nodes total recs) ∈
         (s.sendNodesResponse requester addr rid ds).2 →
+      datagramLen (nodesRespLen rid total (recs.map (·.size))) ≤ 1280
+
+`htab` bounds only the records of the *stored* nodes.  `nodes_by_distances` first applies the
+pending node of every visited bucket, so a record waiting in a bucket's pending slot is promoted and
+served by the very same call; the size hypothesis has to cover the pending slots too.  Counterexample
+(`served_fits_datagram_original_false` below): a full bucket of 16 disconnected 300-byte records
+whose pending slot holds a 2000-byte record.  Not an implementation defect: every `Enr` (stored or
+pending) is at most 300 bytes by construction of the type; only the hypothesis was too narrow.
+-/
+
+/-- **fits_datagram** (end to end; corrected hypothesis `hpend`, see the comment above).  With every
+record (stored ones, those in pending slots, and the own one) at most 300 bytes, a request id of at
+most 8 bytes and a configured maximum of at most 125 records, every packet answering a FINDNODE fits
+a datagram. -/
+theorem served_fits_datagram (s : Svc) (requester : Nat) (addr : Addr) (rid : Bytes) (ds : List Nat)
+    (hrid : rid.length ≤ 8) (hmax : 1 ≤ s.cfg.maxNodesResponse ∧ s.cfg.maxNodesResponse ≤ 125)
+    (hown : s.localRec.size ≤ 300)
+    (htab : ∀ b ∈ s.table.buckets, ∀ n ∈ b.nodes, n.value.size ≤ 300)
+    (hpend : ∀ b ∈ s.table.buckets, ∀ p, b.pending = some p → p.node.value.size ≤ 300) :
+    ∀ total recs, Out.response requester addr rid (.nodes total recs) ∈
+        (s.sendNodesResponse requester addr rid ds).2 →
       datagramLen (nodesRespLen rid total (recs.map (·.size))) ≤ 1280 := by
-  sorry
+  intro total recs hmem
+  obtain ⟨hp, ht⟩ := mem_sendNodesResponse hmem
+  have hsz : ∀ r ∈ (s.nodesToSend requester ds).2, r.size ≤ 300 :=
+    nodesToSend_sizes s requester ds hmax.1 (fun r => r.size ≤ 300) hown
+      (fun b hb => ⟨htab b hb, hpend b hb⟩)
+  have hcount := served_count s requester ds hmax.1
+  have hlen := Svc.nodesPackets_length_le (s.nodesToSend requester ds).2
+  have hsum := nodesPackets_sound (s.nodesToSend requester ds).2
+    (fun r hr => by have := hsz r hr; omega) recs hp
+  rw [datagramLen_eq]
+  exact fits_datagram rid total _ hrid (by omega) hsum
+
+/-- The same with the size bound stated over `table_iter` (all stored and pending values). -/
+theorem served_fits_datagram_tableValues (s : Svc) (requester : Nat) (addr : Addr) (rid : Bytes)
+    (ds : List Nat) (hrid : rid.length ≤ 8)
+    (hmax : 1 ≤ s.cfg.maxNodesResponse ∧ s.cfg.maxNodesResponse ≤ 125)
+    (hown : s.localRec.size ≤ 300) (htab : ∀ v ∈ s.table.tableValues, v.size ≤ 300) :
+    ∀ total recs, Out.response requester addr rid (.nodes total recs) ∈
+        (s.sendNodesResponse requester addr rid ds).2 →
+      datagramLen (nodesRespLen rid total (recs.map (·.size))) ≤ 1280 := by
+  refine served_fits_datagram s requester addr rid ds hrid hmax hown ?_ ?_
+  · intro b hb n hn
+    apply htab
+    unfold Table.tableValues
+    rw [List.mem_flatMap]
+    exact ⟨b, hb, List.mem_append_left _ (List.mem_map_of_mem hn)⟩
+  · intro b hb p hp
+    apply htab
+    unfold Table.tableValues
+    rw [List.mem_flatMap]
+    exact ⟨b, hb, List.mem_append_right _ (by rw [hp]; simp)⟩
 
 def isResponse : Out → Bool
   | .response .. => true
